@@ -324,6 +324,7 @@ func extractMain(args []string) {
 		}
 	}
 	lean.WriteString("\n")
+	emitVarFacts(pkgs, pnames, eval, &lean, facts) // extract_vars.go
 
 	if *wanted != "" {
 		data, err := os.ReadFile(*wanted)
